@@ -5,7 +5,9 @@ set -e
 V=$1; N=$2; shift 2
 REPO=${PV_REPO:-/repo}
 B=$(/verif/tools/build_impl.sh $V)
-OUT=/verif/_work/bin/${N}.$V
+SFX=""
+if [ "$REPO" != "/repo" ]; then SFX="-$(echo $REPO | md5sum | cut -c1-8)"; fi
+OUT=/verif/_work/bin/${N}.$V$SFX
 SAN=""
 case $V in
   asan) SAN="-fsanitize=address,undefined -fno-sanitize-recover=all -fno-omit-frame-pointer" ;;
